@@ -56,6 +56,12 @@ impl Timestamp {
   };
 
   pub fn now() -> Self {
+    #[cfg(rustdds_verif)]
+    {
+      if let Some(t) = crate::verif::hooks::timestamp_now() {
+        return t;
+      }
+    }
     Self::try_from(Utc::now()).unwrap_or_else(|e| {
       error!("{e}");
       // We get an invalid timestamp, if the system clock is set more than
